@@ -34,7 +34,8 @@ CONSTANTS Inst,        \* instances holding the same log key
           PoolSize,    \* 0 = unbounded
           ClockAnomalies,  \* TRUE: clock reads may stall or go backwards
           CacheLoss,       \* TRUE: the dedup cache of a down instance may be lost
-          Stops            \* TRUE: the sequencer may stop (cancel / sunset)
+          Stops,           \* TRUE: the sequencer may stop (cancel / sunset)
+          LiveRounds       \* TRUE: MaxRounds bounds only the rounds that start with an empty pool
 
 VARIABLES
     \* durable, shared
@@ -253,8 +254,9 @@ AddLeaf(i, e) ==
 -----------------------------------------------------------------------------
 (* sequence / sequencePool *)
 Rotate(i) ==
-    /\ pc[i] = "idle" /\ ~stopped[i] /\ rounds[i] < MaxRounds
-    /\ rounds' = [rounds EXCEPT ![i] = @ + 1]
+    /\ pc[i] = "idle" /\ ~stopped[i]
+    /\ (rounds[i] < MaxRounds \/ (LiveRounds /\ pool[i] # <<>>))
+    /\ rounds' = [rounds EXCEPT ![i] = IF rounds[i] < MaxRounds THEN @ + 1 ELSE @]
     /\ cur' = [cur EXCEPT ![i] = [NoRound EXCEPT !.p = [k \in DOMAIN pool[i] |-> pool[i][k].e],
                                                 !.subs = {s \in SubIds : subs[s].i = i /\ subs[s].st = "pool"}]]
     /\ inSeq' = [inSeq EXCEPT ![i] = {pool[i][k].e : k \in DOMAIN pool[i]}]
